@@ -27,7 +27,7 @@ def rel_all(tag, kinds):
 def rel_kinds(prefixes, ktest):
     """digest tags by prefix; R/C/RG lines only when the tx contains a relevant message kind"""
     def rel(tag, kinds):
-        if tag in ("R", "C", "RG"):
+        if tag in ("R", "C", "CR", "RG"):
             return any(ktest(k) for k in kinds)
         return any(tag == p or tag.startswith(p) for p in prefixes)
     return rel
@@ -100,7 +100,7 @@ PROPS = {
     },
     "C15": {
         "chain": [chain("genesis", 32, 25, 400, 40)],
-        "corpus": ["witness", "regress", "known"],
+        "corpus": ["witness", "regress", "known", "large"],
         "relevant": rel_all,
         "level_text": "Proof: c15_import_succeeds (for every state of every run with an empty gov module account, export followed by InitChain in the repository's module order - regenerated from app.go - succeeds: the enterprise and stream balance checks pass and every registered invariant asserted by crisis holds; the imported state is given explicitly), c15_enterprise_identical (orders are stored by ascending id and the whitelist ascending in every state of every run, so the imported enterprise section is the same value as the exported one, as are bank, streams, fee, grants, allowances and block time), c15_registries_newest (each registry after import: same parameters and id counter, every registration with its metadata, its stored limit, exactly the newest 20,000 records per registration, the two counters recomputed from them), c15_registries_lossless (with at most 20,000 records retained per registration every point read of the imported WRKChain and BEACON sections answers as before), c15_export_import_identity (every section of the state is stored in the order the store iterates it - orders, registrations and limits by ascending id, records by ascending store key - in every state of every run, and the import rebuilds that order: with at most 20,000 records retained per registration export followed by import yields the *same state*), c15_same_future (hence every later DeliverTx, CheckTx, BeginBlock and governance proposal has the same result and effect on both chains, and a second export is identical), c15_enterprise_stream_bank_lossless, c15_double_enterprise_import_idempotent, c15_genesis_order, c15_stream_after_crisis_panics (regression witness of the repaired order defect), c15_denom_change_breaks_import (negation witness of the known finding). `..._partial`: with more than 20,000 records retained by some registration the older ones are dropped by design (c15_registries_newest says exactly which); the statement about subsequent transactions is then covered by the correspondence only.",
         "level_note": ENT_NOTE + " Model/Genesis.lean models ExportGenesis/InitGenesis of the four modules, the module manager's order and crisis' invariant assertion. The tie is differential: on generated histories the real app is exported (ExportAppStateAndValidators), a fresh app is InitChain-ed from the export with crisis invariant checking on, all registered invariants are evaluated, the state digest and a second export are compared, and the script continues on the imported chain - all compared with the compiled model. The stream-after-crisis order defect was repaired by a fix: commit; an export taken after coins were sent to the gov module account cannot be imported (SDK gov genesis check) - recorded as a known finding.",
@@ -169,7 +169,7 @@ PROPS = {
         "chain": [chain("gov", 24, 25, 300, 40), chain("all", 16, 25, 200, 40)],
         "pure": [{"kinds": ["entparams", "regparams", "strparams"], Q: 1500, T: 100000}],
         "corpus": ["witness", "regress"],
-        "relevant": rel_kinds(("I", "K", "B", "E", "D ent.params", "D wrk.params", "D bcn.params", "D str.params"), lambda k: k.endswith(".params")),
+        "relevant": rel_kinds(("I", "K", "B", "E", "D ent.params", "D wrk.params", "D bcn.params", "D str.params"), lambda k: k.endswith(".params") or is_reg(k)),
         "level_text": "Proof: c16_params_always_valid (the stored parameters of all four modules satisfy the validity rules written from the statement in every state of every run), c16_*_validate_sound (the code's Validate implies the rules), c16_invalid_update_rejected (an update is stored only if the whole set validates and the authority is the gov module), c16_new_values_used (every use reads the state).",
         "level_note": "Theorems are about the Lean model; Params.Validate of all four modules is compared with the model's validate on boundary-heavy generated parameter structures (vpure) and parameter changes go through real governance in the chain engine, every run. The int(MinAccepts) defect was repaired by a fix: commit; its witness stays in the corpus.",
         "assumptions": ["genesis parameters valid (InitGenesis would not start otherwise)"],
